@@ -98,7 +98,8 @@ def _strategy(draw):
     steps = []
     for _ in range(draw(st.integers(3, 12))):
         op = draw(st.sampled_from(["setup_asset", "setup_asset", "setup_portfolio", "setup_portfolio", "setup_split",
-                                   "setup_fix", "optimize", "extract", "reload", "cost_samples", "shortcut", "json", "json"]))
+                                   "setup_fix", "optimize", "extract", "reload", "cost_samples", "shortcut", "json", "json",
+                                   "setup_inner"]))
         steps.append({"op": op, "k": draw(st.integers(0, n - 1)), "g": draw(st.integers(0, ngr - 1)),
                       "frame": draw(st.booleans()), "interval": draw(st.sampled_from(["2h", "3h", "d"]))})
     return {"grid": g0, "grids": grids, "assets": assets, "prices_per_grid": prices, "steps": steps}
@@ -286,6 +287,17 @@ def check(spec):
                 last = (last[0], last[1], last[2], r)
         elif op == "extract" and last is not None and len(last) == 4:
             eao_call(extract_output, live_pf, last[0], last[3], last[1])
+        elif op == "setup_inner":
+            # the portfolio wrapped by a structured asset, used on its own
+            ks = [j for j in range(n_assets) if spec["assets"][j]["type"] == "structured" and j not in reloaded]
+            if ks:
+                j = ks[k % len(ks)]
+                p = prices_for(gi, False)
+                live = eao_call(live_assets[j].portfolio.setup_optim_problem, p, live_grids[gi])
+                fresh = eao_call(build_assets(spec)[j].portfolio.setup_optim_problem, price_container(spec, gi, False),
+                                 build.build_grid(spec["grids"][gi]))
+                compare(out, live, fresh, "%s (inner portfolio of %s, grid %d)" % (what, spec["assets"][j]["name"], gi))
+                touch([j], gi)
         elif op == "json":
             # the parameters of an asset, as saved, are those of a fresh asset whatever was set up before
             sl = eao_call(serialization.to_json, live_assets[k])
